@@ -625,6 +625,72 @@ def gen_pp(rng, cur, P):
     return {'op': 'transfer', 'src': [a, ssel], 'dst': [b, dsel], 'q': spell(rng, lim * rng.uniform(0.05, 0.5), 'L')}
 
 
+def check_two_recipes(prog, pdesc, eager_states, case):
+    """The same program as two recipes in sequence: the objects returned by the first bake are declared to a second
+    recipe that performs the remaining steps.  Results of a bake are ordinary objects; the second bake must continue
+    from their state exactly as the direct operations do (C08; C04: results reused as inputs)."""
+    pp = PP()
+    steps = prog['steps']
+    # cut where no stage is open, with at least one real step on either side
+    cuts, open_ = [], None
+    n_real = 0
+    total_real = len(real_steps(steps))
+    for i, s_ in enumerate(steps):
+        if s_['op'] == 'start_stage':
+            open_ = s_['name']
+        elif s_['op'] == 'end_stage':
+            open_ = None
+        else:
+            n_real += 1
+        if open_ is None and 0 < n_real < total_real:
+            cuts.append(i + 1)
+    if not cuts:
+        return
+    cut = cuts[len(cuts) // 2]
+    first, second = steps[:cut], steps[cut:]
+    if not real_steps(first) or not real_steps(second):
+        return
+    M.count('C08.two_recipes')
+    M.bucket('C08/two_recipes_in_sequence')
+    try:
+        r1, h1 = to_recipe(prog['decls'], first)
+        res1 = r1.bake()
+        used2 = set()
+        for s_ in second:
+            used2.update(touched(s_))
+        created2 = {creates(s_) for s_ in second if creates(s_)}
+        objs = make_objs(prog['decls'])
+        objs.update(res1)
+        declared2 = [n_ for n_ in objs if n_ in used2 and n_ not in created2]
+        r2 = pp.Recipe()
+        if declared2:
+            r2.uses(*[objs[n_] for n_ in declared2])
+        h2 = {n_: objs[n_] for n_ in declared2}
+        before2 = {n_: F.fingerprint(o_) for n_, o_ in h2.items()}
+        for s_ in second:
+            add_step(r2, h2, s_)
+        res2 = r2.bake()
+    except (MonitorBug, InjectedFault):
+        raise
+    except Exception as e:   # noqa
+        M.violate(['C08'], 'BAKE', f'C08:two_recipes_in_sequence_refused:{type(e).__name__}', {'exc': repr(e)[:300], 'cut': cut, 'program': pdesc})
+        return
+    final = dict(res1)
+    final.update(res2)
+    want = eager_states[-1]
+    for nme in want:
+        if nme not in final:
+            continue        # a declared object that neither half uses
+        d = same_state(want[nme], final[nme])
+        if d:
+            M.violate(['C08'], 'BAKE', 'C08:two_recipes_in_sequence_ne_eager_fold', {'name': nme, 'diff': d, 'cut': cut, 'program': pdesc})
+            return
+    for n_, fp in before2.items():
+        if n_ in res1 and F.fingerprint(res1[n_]) != fp:
+            M.violate(['C08', 'C04'], 'BAKE', 'C04:result_of_first_bake_changed_by_second_recipe', {'name': n_, 'program': pdesc})
+            return
+
+
 def append_remove_chain(rng, prog):
     """Consecutive removals, each in its own stage, on disjoint parts of one plate and then on the whole plate (or on one
     container: an absent selection first): the second removal meets wells that the first one left exactly as they were."""
@@ -799,6 +865,9 @@ def run_recipe_case(rng, case, idx, focus=None):
         M.sample('C08', {'program': pdesc, 'result_names': sorted(res)}, cap=3)
     if res is None or eager_exc is not None:
         return
+    if idx % 5 == 3 and not forgot and not any(s_.get('new_name') for s_ in rs):
+        with M.active(case):
+            check_two_recipes(prog, pdesc, eager_states, case)
     conforming = all(same_state(eager_states[-1][nme], res[nme]) is None for nme in res if nme in eager_states[-1])
     # ---------------- ledger from prefix bakes
     try:
